@@ -87,7 +87,9 @@ def UpdIn.cand (u : UpdIn) : Option Str :=
   | none => none
   | some start =>
     match u.setVersion with
-    | some v => some v
+    | some v => (match normalizeSetVersion u.pat v u.today with
+      | .ok s => some s
+      | .error _ => none)
     | none => match incr start u.pat u.fl u.date u.today with
       | .ok r => r
       | .error _ => none
@@ -141,6 +143,7 @@ def UpdIn.unsupported (u : UpdIn) : Bool :=
     | _ => false
   let e2 := match u.startE, u.setVersion with
     | some start, none => (match incr start u.pat u.fl u.date u.today with | .error .unsupported => true | _ => false)
+    | some _, some v => (match normalizeSetVersion u.pat v u.today with | .error .unsupported => true | _ => false)
     | _, _ => false
   let e3 := match u.cand with
     | none => false
